@@ -662,6 +662,26 @@ func (g *gen) query(c *histCase, ids []string, tags map[string]bool) string {
 		tags["builder"] = true
 		return strings.Join(ws, " ")
 	}
+	if r.Chance(1, 6) {
+		// a range and an equality on one key, the equality at, between or outside the bounds, in any
+		// order (merge of an equality into an existing range and back)
+		k := hx.Pick(r, []string{"k", "pkg", "a", "name", "gomaxprocs"})
+		pool := []string{"1", "10", "2", "a", "ab", "abc", "b", "Bar", "F", "Foo", "4", "8", "16"}
+		lo, hi := hx.Pick(r, pool), hx.Pick(r, pool)
+		eq := hx.Pick(r, []string{lo, hi, hx.Pick(r, pool)})
+		ws := []string{k + ">" + lo, k + "<" + hi, k + ":" + eq}
+		if r.Chance(1, 2) {
+			ws = append(ws, k+hx.Pick(r, []string{">", "<"})+hx.Pick(r, pool))
+		}
+		if r.Chance(1, 2) {
+			for i := len(ws) - 1; i > 0; i-- {
+				j := r.Intn(i + 1)
+				ws[i], ws[j] = ws[j], ws[i]
+			}
+		}
+		tags["triple"] = true
+		return strings.Join(ws, " ")
+	}
 	var words []string
 	nterms := r.Intn(6)
 	for len(words) < nterms {
@@ -898,6 +918,20 @@ func main() {
 				}
 			}
 		}
+	}
+	if shard == 0 && os.Getenv("VERIF_C19_BIG") != "0" {
+		// more uploads than the server's default listing limit (1000 when the client asks for none)
+		c := &histCase{tags: []string{"default-limit"}}
+		for i := 0; i < 1003; i++ {
+			kv := "a"
+			if i%7 == 3 {
+				kv = "b"
+			}
+			c.ups = append(c.ups, uploadIn{day: "20260101", files: []fileIn{{"f.txt", fmt.Sprintf("k: %s\nBenchmarkF 1 %d ns/op\n", kv, i%10)}}})
+		}
+		c.qs = []string{"upload:20260101.1000", "k:b upload>20260101.99"}
+		c.ls = []listReq{{"", 0}, {"", 1001}, {"", 999}, {"name>", 0}, {"k:a", 0}, {"k:b", 0}, {"", -1}}
+		emit(c.encode(next()))
 	}
 	r := hx.NewRand(19 + uint64(shard)*1000003)
 	g := &gen{r: r}
